@@ -220,6 +220,9 @@ inductive Op
   | copyVal (rs : Nat) (src : Loc) (rd : Nat) (dst : Loc)
   /-- `Map.CopyTo` / `Slice.CopyTo` between containers `o1` (under `rs`) and `o2` (under `rd`) -/
   | copyList (rs o1 rd o2 : Nat)
+  /-- `Slice.MoveAndAppendTo` from array container `o1` (under `rs`) to array container `o2` (under `rd`);
+  `newCap` = capacity of the destination observed afterwards (used only if the append had to grow) -/
+  | moveAppend (rs o1 rd o2 newCap : Nat)
   /-- `Value.MoveTo` between roots -/
   | moveRoot (a b : Nat)
   | markRO (r : Nat)
@@ -262,6 +265,16 @@ def step (s : St) : Op → St × Bool
     if s.ro rd then (s, true) else
     let r := copyHdrWith (copyVal s.dep) s.h (s.h.wl o1) (s.h.wl o2)
     ({ s with h := { r.1 with wl := upd r.1.wl o2 r.2 }, dep := bump s.dep }, false)
+  | .moveAppend rs o1 rd o2 c =>
+    if s.ro rs || s.ro rd then (s, true) else
+    let src := s.h.wl o1
+    let d := s.h.wl o2
+    let d' : Hdr :=
+      if d.cap = 0 then src        -- `*dest == nil`: the whole vector is handed over (every reachable non-nil slice has cap > 0)
+      else if src.live.length ≤ d.tail.length then { live := d.live ++ src.live, tail := d.tail.drop src.live.length }
+      else { live := d.live ++ src.live, tail := List.replicate (c - (d.live.length + src.live.length)) KV.zero }
+    -- `*es = nil`: the source keeps neither elements nor the array
+    ({ s with h := { s.h with wl := upd (upd s.h.wl o2 d') o1 {} }, dep := bump s.dep }, false)
   | .moveRoot a b =>
     if s.ro a || s.ro b then (s, true) else
     ({ s with root := upd (upd s.root b (s.root a)) a .nil, dep := bump s.dep }, false)
